@@ -66,7 +66,20 @@ SGE = {
 PLAIN = {"PD", "R", "PENDING", "RUNNING", "PEND", "RUN", "qw", "r"}
 
 
+INVOKE_STYLES = (None, {"plan": [0, 1]}, {"plan": [2, 1]}, {"plan": [0, 1, 2], "wf_link": True}, None,
+                 {"plan": [1], "obj": "analysis"})
+
+
 def enumerate_cases(tier):
+    """Every enumerated state-code case is also given one of a few invocation styles (sub-directory, -f from
+    elsewhere, symlinked workflow file, named workflow object), cycling with its position."""
+    for i, c in enumerate(_enumerate_cases(tier)):
+        if c["kind"] == "code" and INVOKE_STYLES[i % len(INVOKE_STYLES)]:
+            c = dict(c, invoke=INVOKE_STYLES[i % len(INVOKE_STYLES)])
+        yield c
+
+
+def _enumerate_cases(tier):
     for code in SLURM_SHORT:
         for acct_on, files in itertools.product((True, False), ("fresh", "missing")):
             yield {"kind": "code", "backend": "slurm", "where": "queue", "code": code, "acct": acct_on, "files": files}
@@ -115,7 +128,7 @@ def run_code(case):
     if b == "slurm" and not case["acct"]:
         cfg["backend.slurm.accounting_enabled"] = False
     viols = []
-    with project.Project(ONE, backend=b, config=cfg if case.get("config_via") != "cli" else {}) as proj:
+    with project.Project(ONE, backend=b, config=cfg if case.get("config_via") != "cli" else {}, invoke=case.get("invoke")) as proj:
         if case.get("config_via") == "cli":
             rc_ = proj.gwf(["config", "set", "backend.slurm.accounting_enabled", case.get("word", "no")])
             if rc_.code != 0:
@@ -342,7 +355,7 @@ def _hist_case(draw, tier):
         st.tuples(st.just("status")), st.tuples(st.just("status")),
     )
     b = draw(st.sampled_from(["slurm", "slurm", "sge", "lsf"]))
-    return {"kind": "hist", "desc": desc, "backend": b, "acct": draw(st.sampled_from([True, True, False])),
+    return {"kind": "hist", "desc": desc, "invoke": draw(gen.invoke()), "backend": b, "acct": draw(st.sampled_from([True, True, False])),
             "first_id": draw(st.sampled_from([1001, 100, 7, 99998])),
             "foreign": draw(st.lists(st.sampled_from(["pre", "suf", "next", "wrap"]), max_size=3)),
             "steps": [["run"]] + [list(s) for s in draw(st.lists(step, min_size=3, max_size=16))]}
@@ -359,7 +372,7 @@ def run_hist(case):
         cfg["backend.slurm.accounting_enabled"] = False
     viols, labels = [], {"hist", "backend-" + b}
     nt = False
-    with project.Project(desc, backend=b, config=cfg, first_id=case["first_id"]) as proj:
+    with project.Project(desc, backend=b, config=cfg, first_id=case["first_id"], invoke=case.get("invoke")) as proj:
         R0 = model.Resolved(desc)
         proj.set_files({p: (t if t is not None or p in R0.producers else 1) for p, t in desc["files"].items()})
         S = hist.Session(proj, desc, accounting=case["acct"])
